@@ -471,3 +471,32 @@ def history_rewrite_total(fb, f):
         out.append((lp, w))
     return out
 
+
+def completion_closure_wholesale_guard(f):
+    """deep-completion closures that are switched on or off as a whole: a loop adding the `ancestors` of completion members that sits
+    under a test of the whole completion set against the whole children set (BIT_HAS_AND / bit_has_and / intersects).  With
+    initial="child deeper" one member being a direct child switches the closure off for the deeper one.  [(loop, guard)]"""
+    out = []
+    for lp in f.walk():
+        if lp['k'] not in ('ForStmt', 'WhileStmt', 'CXXForRangeStmt', 'DoStmt'):
+            continue
+        body = lp['c'][-1]
+        if body is None:
+            continue
+        adds = [n for n in sub(body) if ((n['k'] in ('CompoundAssignOperator', 'CXXOperatorCallExpr', 'BinaryOperator') and n.get('op') == '|=') or (
+            n['k'] in ('CallExpr', 'CXXMemberCallExpr') and n.get('callee', {}).get('q', '').split('::')[-1] in ('bit_or', 'insert'))) and
+            'ancestors' in [x['ref'].get('name') for x in sub(n) if x['k'] == 'MemberExpr']]
+        hdr_or_if = [x for x in sub(lp) if x['k'] == 'MemberExpr' and x['ref'].get('name') == 'completion']
+        if not adds or not hdr_or_if:
+            continue
+        for anc in f.ancestors(lp):
+            if anc['k'] != 'IfStmt':
+                continue
+            c = [k for k in anc['c'] if k is not None][0]
+            names = {x['ref'].get('name') for x in sub(c) if x['k'] == 'MemberExpr'}
+            whole = any(m[0] in ('BIT_HAS_AND',) for x in sub(c) for m in (x.get('mac') or [])) or any(
+                x.get('callee', {}).get('q', '').split('::')[-1] in ('bit_has_and', 'intersects') for x in sub(c))
+            if whole and {'completion', 'children'} <= names:
+                out.append((lp, anc))
+    return out
+
